@@ -1,6 +1,7 @@
 import Aldy.Driver.Views
 import Aldy.Model.Major
 import Aldy.Model.Filters
+import Aldy.Model.Planted
 
 /-! Driver ops for the major stage. -/
 
@@ -20,6 +21,18 @@ def jMajorInst (j : Json) : Except String MajorInst := do
 def opMajorBuild (j : Json) : Except String Json := do
   let I ← jMajorInst j
   pure (ilpJ (mapIlp MVar.name I.build))
+
+/-- spec level (Props/C02Spec): for every multiset `k` sent, is it an admissible decision and what is its
+documented score `specMajor` - by `major_min_objective_is_spec` the least objective of the model among the points
+that select `k` -/
+def opMajorSpec (j : Json) : Except String Json := do
+  let I ← jMajorInst j
+  let ks ← jList (jList (jPair jStr jNat)) (← field j "ks")
+  let noRefOps := I.funcMuts.all fun m => !(m.op == "_")
+  pure (objJ [("no_ref_ops", boolJ noRefOps),
+              ("ks", listJ (fun (kl : List (String × Nat)) =>
+                  let k : String → Nat := fun a => (kl.lookup a).getD 0
+                  objJ [("admissible", boolJ (I.admissibleB k)), ("spec", ratJ (I.specMajor k))]) ks)])
 
 /-- `_filter_alleles`: surviving allele names and the filtered coverage. -/
 def opMajorFilter (j : Json) : Except String Json := do
